@@ -61,10 +61,21 @@ def gen_program(rng, cid, size, ops_un=None, ops_bin=None, remap_p=0.08, apply_p
     p.usize = []          # upper bound on the size of each handle's tree unfolding
     _emit = p.emit
 
+    p.mentions = []       # per handle: free variables (handles) its unfolding mentions
+
     def emit(line, kind=None, size=1):
         h = _emit(line, kind)
         if kind is not None:
             p.usize.append(size)
+            toks = line.split()
+            ms = set()
+            if toks[0] == "var":
+                ms = {h}
+            else:
+                for tk in toks[1:]:
+                    if tk.isdigit() and int(tk) < len(p.mentions):
+                        ms |= p.mentions[int(tk)]
+            p.mentions.append(ms)
         return h
     p.emit2 = emit
     hx = emit("x", "axis")
@@ -74,6 +85,7 @@ def gen_program(rng, cid, size, ops_un=None, ops_bin=None, remap_p=0.08, apply_p
     consts = []
     vars_ = []
     applied = {}
+    remapped = []
 
     def pick(allow_const=True):
         if allow_const and consts and rng.random() < 0.25:
@@ -113,11 +125,17 @@ def gen_program(rng, cid, size, ops_un=None, ops_bin=None, remap_p=0.08, apply_p
                 continue
             h = emit(f"remap {t} {a} {b} {c}", "tree", sz)
             trees.append(h)
+            remapped.append(h)
         elif r < 0.18 + var_p + remap_p + apply_p and vars_:
             t, e = pick(False), pick()
             v = rng.choice(vars_)
+            # an apply AROUND a remap whose body mentions the variable (the remap must keep the binding)
+            cand = [hh for hh in remapped if p.mentions[hh]]
+            if cand and rng.random() < 0.5:
+                t = rng.choice(cand)
+                v = rng.choice(sorted(p.mentions[t]))
             # nested applies of the SAME variable (inner binding must shadow the outer one)
-            if applied and rng.random() < 0.5:
+            elif applied and rng.random() < 0.5:
                 v = rng.choice(sorted(applied))
                 t = rng.choice(applied[v])
                 if rng.random() < 0.5:
